@@ -68,7 +68,13 @@ LeafPool == <<
   Leaf("Arg", <<8>>, <<3, 3>>, "f", 0, {}),                               \* 31 3x3 argument
   Leaf("Const", <<1, 4>>, <<>>, "f", 0, {}),                              \* 32 .25
   Leaf("Const", <<3, 1>>, <<>>, "f", 0, {}),                              \* 33 3.
-  Leaf("Const", <<-1, 1>>, <<>>, "f", 0, {})                              \* 34 -1.
+  Leaf("Const", <<-1, 1>>, <<>>, "f", 0, {}),                             \* 34 -1.
+  Leaf("Const", <<1, 8>>, <<>>, "f", 0, {}),                              \* 35 .125
+  Leaf("Const", <<3, 2>>, <<>>, "f", 0, {}),                              \* 36 1.5
+  Leaf("Const", <<0, 1, 1, 1, 1, 1, 3, 1>>, <<4>>, "i", 4, {}),           \* 37 [0, 1, 1, 3] (non-decreasing, repeated)
+  Leaf("Const", <<2, 1, 2, 1, 4, 1>>, <<3>>, "i", 5, {}),                 \* 38 [2, 2, 4]
+  Leaf("Const", <<2, 1, 0, 1, 1, 1>>, <<3>>, "i", 3, {}),                 \* 39 [2, 0, 1] (permutation of 3)
+  Leaf("Arg", <<9>>, <<4>>, "f", 0, {})                                   \* 40 length-4 argument
 >>
 
 IsLeaf(n) == Len(n.d) = 0
@@ -210,7 +216,8 @@ Complete == L >= 1 /\ Nd(L).lp = {} /\ Unused = {L} /\ NOps >= EmitMin
 \* program at one fixed environment (model-internal sanity of the builder)
 TestEnv == << ArgArr(<<2>>, <<1, 2>>, 0), ArgArr(<<2, 2>>, <<1, 2, 3, 5>>, 0), ArgArr(<<>>, <<2>>, 0),
               ArgArr(<<3>>, <<1, 2, 3>>, 0), ArgArr(<<2>>, <<1, 0>>, 0), ArgArr(<<2>>, <<1, 0>>, 0),
-              ArgArr(<<2, 2, 2>>, <<1, 2, 3, 4, 5, 6, 7, 9>>, 0), ArgArr(<<3, 3>>, <<2, 1, 0, 1, 3, 1, 0, 1, 2>>, 0) >>
+              ArgArr(<<2, 2, 2>>, <<1, 2, 3, 4, 5, 6, 7, 9>>, 0), ArgArr(<<3, 3>>, <<2, 1, 0, 1, 3, 1, 0, 1, 2>>, 0),
+              ArgArr(<<4>>, <<1, 2, 3, 4>>, 0) >>
 ShapeSound == Complete => Ev(nodes, L, TestEnv, <<0, 0>>).sh = Nd(L).sh
 IxSound == (Complete /\ Nd(L).ix > 0) =>
               \A x \in {Ev(nodes, L, TestEnv, <<0, 0>>).v[e] : e \in 1..Prod(Nd(L).sh)} :
